@@ -91,6 +91,14 @@ def correspondence(ck, tier, faults=True, suite="K.histories", nhist=None):
                 files_before = obs[i]["files"]
             else:
                 ops_c = ops
+            # C08 allows a call to raise while a damaged file sits in the directory; the model predicts the common outcome
+            # (regenerate), the code may take another loud path (e.g. basex "extends" a larger valid file after failing to read
+            # the best one and trips over the shapes).  Such a raise is not a disagreement; the history stops being comparable.
+            for i in range(len(ops_c)):
+                if ops_c[i][0] == "call" and obs[i]["out"] == "raised" and model[i]["out"] == "ok" and i > 0 \
+                        and any(st != 0 for (_, st) in model[i - 1]["files"]):
+                    obs, model, ops_c = obs[:i], model[:i], ops_c[:i]
+                    break
             bad = compare(ad, ops_c, obs, model)
             # property level: every ok result equals the freshly generated basis for that key
             wrong = None
@@ -288,7 +296,15 @@ def oracle_transform(ck, tier, deep, faults=False, suite="S.transform-histories"
             except Exception as e:
                 if faults:
                     continue          # an exception is an allowed answer to a damaged file
-                ck.violation(dict(site=short, clause="exception"), dict(history=hist[-12:]), f"{label}: {type(e).__name__}: {e}")
+                # a request that raises in a pristine process too is not a question of history (e.g. a singular regularised
+                # system for weights that mask whole rings): compare with the reference before calling it a violation
+                try:
+                    _reference(modname, f)
+                    ref_raises = False
+                except Exception:
+                    ref_raises = True
+                if not ref_raises:
+                    ck.violation(dict(site=short, clause="exception"), dict(history=hist[-12:]), f"{label}: {type(e).__name__}: {e}")
                 continue
             if label not in ref:
                 try:
